@@ -341,6 +341,39 @@ def c26_csmc_no_proposal():
     assert abs(float(w) - float(exact)) < 0.7, (float(jnp.exp(w)), float(jnp.exp(exact)))
     return float(jnp.exp(w))
 
+@probe
+def c04_scan_key_collision():
+    # found by a mutation sub-agent on the clean tree: Scan carried the folded key, so fold_in(k_i, i+1) collided with the kernel handler's fold_in(k_i, c)
+    @gen
+    def h():
+        p = flip(0.5) @ "p"
+        q = flip(0.5) @ "q"
+        return q
+    @gen
+    def kern(c, _):
+        u = h() @ "h"
+        b = flip(0.5) @ "b"
+        return c, (u, b)
+    m = kern.scan(n=3)
+    def one(k):
+        return m.simulate(k, (0.0, None)).get_retval()[1]
+    q, b = jax.vmap(one)(jax.random.split(jax.random.key(0), 2000))
+    same = float(jnp.mean(q[:, 0] == b[:, 1]))
+    assert 0.4 < same < 0.6, same
+    return same
+
+@probe
+def c08_mixed_retval_tags():
+    @gen
+    def f(x):
+        y = normal(x, 1.0) @ "y"
+        return y, 1.0
+    tr = f.simulate(key, (0.0,))
+    new, w, rd, bwd = Update(C["y"].set(3.0)).edit(key, tr, Diff.no_change((0.0,)))
+    from genjax._src.core.compiler.interpreters.incremental import UnknownChange
+    assert rd[0].tangent == UnknownChange, rd
+    return str(rd[0].tangent)
+
 if __name__ == "__main__":
     names = sys.argv[1:] or list(P)
     bad = 0
